@@ -36,6 +36,15 @@ CREATE TYPE vtl_time_interval AS STRUCT(
 
 
 -- ============================================================================
+-- YEAR FIELD: always four digits (years 0..9999), as in every documented representation
+-- ============================================================================
+
+CREATE OR REPLACE MACRO vtl_year_str(y) AS (
+    LPAD(CAST(y AS VARCHAR), 4, '0')
+);
+
+
+-- ============================================================================
 -- NORMALIZE: VARCHAR -> VARCHAR
 -- ============================================================================
 -- Any input format (#505) -> canonical internal representation.
@@ -127,10 +136,10 @@ CREATE OR REPLACE MACRO vtl_period_to_string(p vtl_time_period) AS (
     CASE
         WHEN p IS NULL THEN NULL
         WHEN p.period_indicator = 'A' THEN
-            CAST(p.year AS VARCHAR) || 'A'
+            vtl_year_str(p.year) || 'A'
         ELSE
             CONCAT(
-                CAST(p.year AS VARCHAR), '-', p.period_indicator,
+                vtl_year_str(p.year), '-', p.period_indicator,
                 LPAD(CAST(p.period_number AS VARCHAR),
                      CASE p.period_indicator
                          WHEN 'D' THEN 3
@@ -222,31 +231,31 @@ CREATE OR REPLACE MACRO vtl_interval_to_period(interval_str VARCHAR) AS (
             WHEN MONTH(d1) = 1 AND DAY(d1) = 1
                  AND MONTH(d2) = 12 AND DAY(d2) = 31
                  AND YEAR(d1) = YEAR(d2)
-            THEN CAST(YEAR(d1) AS VARCHAR) || 'A'
+            THEN vtl_year_str(YEAR(d1)) || 'A'
             -- Semester 1: Jan 1 to Jun 30
             WHEN MONTH(d1) = 1 AND DAY(d1) = 1
                  AND MONTH(d2) = 6 AND DAY(d2) = 30
                  AND YEAR(d1) = YEAR(d2)
-            THEN CAST(YEAR(d1) AS VARCHAR) || '-S1'
+            THEN vtl_year_str(YEAR(d1)) || '-S1'
             -- Semester 2: Jul 1 to Dec 31
             WHEN MONTH(d1) = 7 AND DAY(d1) = 1
                  AND MONTH(d2) = 12 AND DAY(d2) = 31
                  AND YEAR(d1) = YEAR(d2)
-            THEN CAST(YEAR(d1) AS VARCHAR) || '-S2'
+            THEN vtl_year_str(YEAR(d1)) || '-S2'
             -- Quarter
             WHEN DAY(d1) = 1 AND YEAR(d1) = YEAR(d2)
                  AND MONTH(d1) IN (1, 4, 7, 10)
                  AND d2 = LAST_DAY(d1 + INTERVAL 2 MONTH)
-            THEN CAST(YEAR(d1) AS VARCHAR) || '-Q'
+            THEN vtl_year_str(YEAR(d1)) || '-Q'
                  || CAST(((MONTH(d1) - 1) // 3 + 1) AS VARCHAR)
             -- Month
             WHEN DAY(d1) = 1 AND d2 = LAST_DAY(d1)
                  AND YEAR(d1) = YEAR(d2)
-            THEN CAST(YEAR(d1) AS VARCHAR) || '-M'
+            THEN vtl_year_str(YEAR(d1)) || '-M'
                  || LPAD(CAST(MONTH(d1) AS VARCHAR), 2, '0')
             -- Week (ISO)
             WHEN ISODOW(d1) = 1 AND d2 = d1 + INTERVAL 6 DAY
-            THEN CAST(ISOYEAR(d1) AS VARCHAR) || '-W'
+            THEN vtl_year_str(ISOYEAR(d1)) || '-W'
                  || LPAD(CAST(WEEKOFYEAR(d1) AS VARCHAR), 2, '0')
             ELSE error('Cannot determine period for interval: ' || interval_str)
         END
